@@ -525,15 +525,38 @@ func runC19() int {
 	for i := 0; i < len(corp); i += cstep {
 		seeds = append(seeds, seed{corp[i].Name, corp[i].Src, nil})
 	}
+	// the template-adjacency family and the trivia seeds also get every classic edit at every boundary
+	firstTmpl := len(seeds)
+	for _, t := range wgen.C19TmplSeeds() {
+		seeds = append(seeds, seed{t.Name, t.Src, nil})
+	}
+	for _, t := range c19TriviaSeeds {
+		seeds = append(seeds, seed{t.name, strings.ReplaceAll(t.src, "§", ""), nil})
+	}
 	r.Extra("seeds", len(seeds))
-	r.ParallelFor(len(seeds), func(i int) {
+	var jobs []c19Job
+	for i := range seeds {
 		s := seeds[i]
-		c19Seed(r, s.name, s.src, s.c, r.Thorough() && s.c == nil && len(s.src) < 2500)
-	})
+		if c19Part("classic") {
+			jobs = append(jobs, func() { c19Seed(r, s.name, s.src, s.c, r.Thorough() && s.c == nil && len(s.src) < 2500) })
+		}
+		// whitespace edits judged by the reference tokenizer: the new families and every small seed
+		if c19Part("ws") && (i >= firstTmpl || len(s.src) < 1500 || (r.Thorough() && len(s.src) < 6000)) {
+			jobs = append(jobs, c19WsJob(r, s.name, s.src))
+		}
+	}
+	if c19Part("trivia") {
+		jobs = append(jobs, c19TriviaJobs(r)...)
+	}
+	if c19Part("order") {
+		jobs = append(jobs, c19OrderJobs(r)...)
+	}
+	r.Extra("jobs", len(jobs))
+	r.ParallelFor(len(jobs), func(i int) { jobs[i]() })
 	r.Sample(map[string]any{"seed": seeds[0].name, "edit": "insert-block-comment-nested at every token boundary", "oracle": "acceptance, lowered-module hash (names/spans erased), SPIR-V bytes, HLSL/MSL/GLSL text"})
 	r.Sample(map[string]any{"seed": seeds[3].name, "edit": "rename-reverse-order", "oracle": "texts equal up to one consistent identifier bijection"})
 	printKeys(r)
-	return r.Finish("for every seed (micro-programs, F1/F2 representatives, corpus files): every trivia insertion (14 kinds: space, tab, LF, CRLF, lone CR, line comments ended by each line break, empty/nested/lookalike/quote/non-ASCII/multi-line block comments) at every token boundary; every `>>`/`>=`/`>>=` adjacency created or split at template-list closers; whitespace removal next to non-merging punctuation; three injective renamings of declared identifiers (longer, shorter, reversed lexicographic order); for generated seeds redundant parentheses around every expression node; thorough adds pairs of insertions at the same/adjacent boundary. Oracle: acceptance unchanged, lowered module identical up to names/spans, SPIR-V bytes identical, text outputs identical (alpha-equivalent for renamings). distinct = distinct edit kinds exercised",
+	return r.Finish("for every seed (micro-programs, F1/F2 representatives, corpus files): every trivia insertion (14 kinds: space, tab, LF, CRLF, lone CR, line comments ended by each line break, empty/nested/lookalike/quote/non-ASCII/multi-line block comments) at every token boundary; every `>>`/`>=`/`>>=` adjacency created or split at template-list closers; whitespace removal next to non-merging punctuation; three injective renamings of declared identifiers (longer, shorter, reversed lexicographic order); for generated seeds redundant parentheses around every expression node; thorough adds pairs of insertions at the same/adjacent boundary. Enumerated sub-spaces: (1) every pure-trivia string (per an independent reference scanner of WGSL blankspace/comments: nesting block comments, line comments) of length <= 12 over {/ * a} and <= 8 over {/ * a blank LF}, the latter also with CR LF and lone CR, plus every text of length <= 6 ending inside a line comment closed by each of the 8 WGSL line breaks (and unclosed at end of text), and every WGSL blankspace code point, inserted at 9 characteristic boundaries of each of 2 seeds (thorough: 13/9/7), and every ordered pair of the strings of length <= 8 / <= 5 at 4 pairs of sites; (2) the order family: k=3 (every labelled DAG) and k=4 (stars, Hamiltonian paths, diamonds, empty; thorough every labelled DAG) mutually referring structs / aliases+arrays+structs / functions / constants / mixed struct-fn-const-var declarations, and k independent globals / storage buffers / locals / parameters / struct members, both reference orders, entry point first or last, instantiated with every permutation of the lexicographic order of the k names in 3 length styles, compared up to the renaming; (3) the template-adjacency family (49 seeds: every template-list close followed by every token that may follow it, depths 1..3, plus genuine > >= >> >>= < <= << operators) and every other small seed under every single whitespace removal from the fully spaced form, every single blank//**//LF//-comment insertion into the minimal form, and every filling {nothing, blank, /**/} of every window of 3 consecutive boundaries touching a token with < or >, keeping the candidates whose reference token sequence (WGSL template list discovery) is unchanged. Oracle: acceptance unchanged, lowered module identical up to names/spans, SPIR-V bytes identical, text outputs identical (alpha-equivalent for renamings). distinct = distinct edit kinds exercised",
 		[]string{"edits are neutral by the WGSL grammar: trivia between tokens, template-list disambiguation, parenthesised expressions, consistent renaming that avoids existing identifiers and swizzle-like names",
 			"entry-point names are kept out of renamings"})
 }
